@@ -236,6 +236,12 @@ def replay(pyhf, backend, precision, chunk, seed):
         out["toms_calls"] += 1
         out["stub_evals"] += len(stub.calls)
         if not stub.calls:
+            if out["stub_evals"] > 0:
+                # the binding demonstrably works (earlier scans of this worker evaluated their points): this scan answered without
+                # evaluating a single hypothesis test for the curves it was given - it was served from what an earlier call left behind
+                add(f"{entry}(scan=None, level={level:g}) returned without evaluating any scan point for this request (result taken from an earlier call on the same model)",
+                    ctx, tags + ["stale"])
+                return
             raise RuntimeError("binding broken: upper_limits.hypotest stub was never called by the automatic scan")
         if case["edge"]:
             out["edge"]["returned"] = out["edge"].get("returned", 0) + 1
